@@ -19,10 +19,17 @@ type Params struct {
 	Cancel string
 	// Broadcast calls made before any waiter exists (the channel is then a replacement one).
 	Prior int
+	// Late: further waiters that enter Wait while the Broadcast is being issued (they are not among
+	// the k, so nothing is demanded for them; they must not cost any of the k its wake-up).
+	Late int
 }
 
 func (p Params) Name() string {
-	return fmt.Sprintf("cond/k=%d/m=%d/broadcast=%v/cancel=%s/priorBroadcasts=%d", p.K, p.M, p.Broadcast, p.Cancel, p.Prior)
+	s := fmt.Sprintf("cond/k=%d/m=%d/broadcast=%v/cancel=%s/priorBroadcasts=%d", p.K, p.M, p.Broadcast, p.Cancel, p.Prior)
+	if p.Late > 0 {
+		s += fmt.Sprintf("/lateWaiters=%d", p.Late)
+	}
+	return s
 }
 
 func (p Params) Body() func() {
@@ -43,19 +50,23 @@ func (p Params) Body() func() {
 			done bool
 			err  error
 		}
-		res := make([]wres, p.K)
-		ctxs := make([]context.Context, p.K)
-		cancels := make([]context.CancelFunc, p.K)
-		cancelled := make([]bool, p.K)
+		res := make([]wres, p.K+p.Late)
+		ctxs := make([]context.Context, p.K+p.Late)
+		cancels := make([]context.CancelFunc, p.K+p.Late)
+		cancelled := make([]bool, p.K+p.Late)
+		allEntered := make(chan struct{})
 		for i := range ctxs {
 			ctxs[i], cancels[i] = context.WithCancel(context.Background())
 		}
 		var wg sync.WaitGroup
-		for i := 0; i < p.K; i++ {
+		for i := 0; i < p.K+p.Late; i++ {
 			i := i
 			wg.Add(1)
 			go func() {
 				defer wg.Done()
+				if i >= p.K {
+					<-allEntered
+				}
 				l.Lock()
 				err := c.Wait(ctxs[i])
 				held := l.HeldByMe()
@@ -63,7 +74,7 @@ func (p Params) Body() func() {
 					if !held {
 						hx.Fail("nil-return-without-lock", "Wait returned nil but the caller does not hold the lock")
 					}
-					l.OnUnlock = nil
+					l.ClearOnUnlock()
 					l.Unlock()
 				} else {
 					if held {
@@ -83,6 +94,7 @@ func (p Params) Body() func() {
 			for i := 0; i < p.K; i++ {
 				<-entered
 			}
+			close(allEntered)
 			if p.Broadcast {
 				c.Broadcast()
 			} else {
@@ -206,6 +218,8 @@ func All() []Params {
 		Params{K: 1, M: 1, Prior: 1},
 		Params{K: 2, M: 1, Prior: 1},
 		Params{K: 1, Broadcast: true, Prior: 1},
+		Params{K: 1, Broadcast: true, Late: 1},
+		Params{K: 2, Broadcast: true, Late: 1},
 	)
 	return out
 }
